@@ -618,7 +618,8 @@ def tasks(tier):
             ts.append(('contracts.c03', 'method_task', ('C03', m, pol)))
     ts += bulk_tasks('C03')
     ts += [('contracts.c10', 'peekitem_task', ('C03', True)), ('contracts.c10', 'peekitem_task', ('C03', False)),
-           ('contracts.c10', 'accessors_task', ('C03',))]
+           ('contracts.c10', 'accessors_task', ('C03',)),
+           ('contracts.iteration', 'iter_task', ('C03', True)), ('contracts.iteration', 'iter_task', ('C03', False))]
     return ts
 
 
